@@ -605,17 +605,14 @@ def list_slice_index_maps(repo: Repo, R, rule: str):
     seen = {1: None, -1: None}
     problems = []
     for c, b, conds in cases:
-        if not ast.unparse(au.expand(b["P"], env)) == f"{sl}.parent.parent":
+        from . import shared as _sh0
+
+        palts = _sh0.alternatives(fi.node, b["P"], list(conds))
+        if not (palts and all(ast.unparse(v) == f"{sl}.parent.parent" for v, _c in palts)):
             problems.append(f"base is `{ast.unparse(b['P'])}`, expected the grand-parent `{sl}.parent.parent`")
-        alts = []
-        if isinstance(b["I"], ast.Name) and b["I"].id not in env:
-            use = {(ast.unparse(t), pol) for t, pol in conds}
-            for v, cds in branch_defs(fi.node, b["I"].id):
-                if not use <= {(ast.unparse(t), pol) for t, pol in cds}:
-                    continue  # a definition on another branch cannot reach this use
-                alts += _split_ifexp(au.expand(v, env), cds)
-        else:
-            alts = _split_ifexp(au.expand(b["I"], env), list(conds))
+        from . import shared as _sh
+
+        alts = _sh.alternatives(fi.node, b["I"], list(conds))
         for e, cds in alts:
             cds = [(au.expand(t, env), pol) for t, pol in cds]
             sign = _sign_of_branch(cds)
@@ -640,38 +637,54 @@ def list_slice_index_maps(repo: Repo, R, rule: str):
     # ---- first/rest recursion
     firsts = {}
     rests = {}
-    for c, b in pat.find(f"_list_slice({sl}.parent[$I])", fi.node):
-        conds = [(au.expand(t, env), pol) for t, pol in path_conditions(fi.node, c)]
-        sg = _sign_of_branch(conds)
-        if sg is not None and not isinstance(b["I"], ast.Slice):
-            firsts[sg] = au.expand(b["I"], env)
-    for n in au.walk_no_nested(fi.node):
-        if isinstance(n, ast.Subscript) and isinstance(n.slice, ast.Slice) and ast.unparse(n.value) == f"{sl}.parent":
-            conds = [(au.expand(t, env), pol) for t, pol in path_conditions(fi.node, n)]
-            sg = _sign_of_branch(conds)
-            if sg is not None:
-                rests[sg] = n.slice
+    from . import shared as _sh
+
+    def _as_slice(x):
+        if isinstance(x, ast.Slice):
+            return x
+        if isinstance(x, ast.Call) and isinstance(x.func, ast.Name) and x.func.id == "slice" and len(x.args) == 3 and not x.keywords:
+            lo, hi, stp = x.args
+            none = lambda v: None if isinstance(v, ast.Constant) and v.value is None else v
+            return ast.Slice(none(lo), none(hi), none(stp))
+        return None
+
+    def _is_parent(n):
+        alts_ = _sh.alternatives(fi.node, n.value, list(path_conditions(fi.node, n)))
+        return bool(alts_) and all(ast.unparse(v) == f"{sl}.parent" for v, _c in alts_)
+
+    subs = [n for n in au.walk_no_nested(fi.node) if isinstance(n, ast.Subscript) and _is_parent(n) and not any(pol and "== 1" in ast.unparse(t) and "width(" in ast.unparse(t) for t, pol in path_conditions(fi.node, n))]
+    for n in subs:
+        for val, cds in _sh.alternatives(fi.node, n.slice, list(path_conditions(fi.node, n))):
+            sg = _sign_of_branch([(au.expand(t, env), pol) for t, pol in cds])
+            if sg is None:
+                continue
+            as_sl = _as_slice(val)
+            if as_sl is not None:
+                rests[sg] = (as_sl, cds)
+            else:
+                firsts[sg] = val
     if set(firsts) != {1, -1} or set(rests) != {1, -1}:
         raise AnalysisError(f"idiom-unknown: first/rest recursion of {fi.site} not recognised (firsts {sorted(firsts)}, rests {sorted(rests)})")
     f_ok = au.poly_eq(firsts[1], ast.parse(f"{sl}.bot", mode="eval").body) and au.poly_eq(firsts[-1], ast.parse(f"{sl}.top - 1", mode="eval").body)
     R.check(f_ok, rule, key_of(fi, "first-bit"), fi.site,
             f"first peeled bit: step>0 -> parent[{ast.unparse(firsts[1])}], step<0 -> parent[{ast.unparse(firsts[-1])}] (expected bot / top - 1; top is exclusive)",
             why="a strided or reversed slice of a slice/concat starts one bit off")
-    rp, rn = rests[1], rests[-1]
+    (rp, _cp), (rn, cn) = rests[1], rests[-1]
     stepv = ast.unparse(au.expand(rp.step, env)) if rp.step is not None else None
     p_ok = rp.lower is not None and rp.upper is not None and au.poly_eq(au.expand(rp.lower, env), ast.parse(f"{sl}.bot + {sl}.step", mode="eval").body) and au.poly_eq(au.expand(rp.upper, env), ast.parse(f"{sl}.top", mode="eval").body) and stepv == f"{sl}.step"
     n_lower_ok = rn.lower is not None and au.poly_eq(au.expand(rn.lower, env), ast.parse(f"{sl}.top - 1 + {sl}.step", mode="eval").body)
-    # upper: bot - 1, but never -1 (which Python reads as "last element")
-    upper = au.expand(rn.upper, au.local_defs(fi.node), depth=2) if rn.upper is not None else None
+    # upper: bot - 1, but never -1 (which Python reads as "last element"): None when bot == 0
     n_upper_ok = False
-    if upper is not None:
-        if isinstance(upper, ast.Name) and len(branch_defs(fi.node, upper.id)) > 1:
-            # defined on both branches of an if/else (the canonical form of a conditional expression)
-            alts = [(au.expand(v, env), list(cds)) for v, cds in branch_defs(fi.node, upper.id)]
-        else:
-            alts = _split_ifexp(upper, [])
-        vals = {ast.unparse(e) for e, _c in alts}
-        n_upper_ok = vals == {f"{sl}.bot - 1", "None"} and any(au.cmp_norm(t) == au.cmp_norm(ast.parse(f"{sl}.bot > 0", mode="eval").body) and pol == (ast.unparse(e) != "None") for e, cds in alts for t, pol in cds)
+    upper_alts = []
+    for n in subs:
+        for val, cds in _sh.alternatives(fi.node, n.slice, list(path_conditions(fi.node, n))):
+            as_sl = _as_slice(val)
+            if as_sl is not None and _sign_of_branch([(au.expand(t, env), pol) for t, pol in cds]) == -1:
+                up = as_sl.upper
+                upper_alts.append((None if (up is None or (isinstance(up, ast.Constant) and up.value is None)) else up, cds))
+    vals = {ast.unparse(e) if e is not None else "None" for e, _c in upper_alts}
+    pos = ast.parse(f"{sl}.bot > 0", mode="eval").body
+    n_upper_ok = vals == {f"{sl}.bot - 1", "None"} and all(any(au.cmp_norm(au.expand(t, env)) in (au.cmp_norm(pos),) and pol == (e is not None) for t, pol in cds) or any(au.cmp_norm(ast.UnaryOp(ast.Not(), au.expand(t, env))) == au.cmp_norm(pos) and pol == (e is None) for t, pol in cds) for e, cds in upper_alts)
     nstep = ast.unparse(au.expand(rn.step, env)) if rn.step is not None else None
     R.check(p_ok and n_lower_ok and n_upper_ok and nstep == f"{sl}.step", rule, key_of(fi, "rest-slice"), fi.site,
             f"remaining bits: step>0 -> parent[{ast.unparse(rp)}] ok={p_ok}; step<0 -> parent[{ast.unparse(rn)}] lower ok={n_lower_ok}, upper (bot-1, or None when bot == 0) ok={n_upper_ok}",
@@ -702,11 +715,12 @@ def list_slice_index_maps(repo: Repo, R, rule: str):
                 lc = [(ast.unparse(t), p_) for t, p_ in path_conditions(fi.node, lp)]
                 init = [s for s in au.stmts(fi.node) if isinstance(s, ast.Assign) and ast.unparse(s.targets[0]) == acc and [(ast.unparse(t), p_) for t, p_ in path_conditions(fi.node, s)] == lc and s.lineno < lp.lineno]
                 sub = pat.find(f"_list_slice($P[{sl}.bot - {acc}])", lp)
-                inc_ok = ast.unparse(aug[0].value) in ("width(part)", f"width({ast.unparse(lp.target)})")
+                ldefs = au.local_defs(fi.node)
+                inc_ok = ast.unparse(au.expand(aug[0].value, ldefs)) in ("width(part)", f"width({ast.unparse(lp.target)})")
                 test_ok = False
                 for n in ast.walk(lp):
                     if isinstance(n, ast.If):
-                        cn = au.cmp_norm(n.test)
+                        cn = au.cmp_norm(au.expand(n.test, ldefs))
                         want = au.cmp_norm(ast.parse(f"width({ast.unparse(lp.target)}) + {acc} > {sl}.bot", mode="eval").body)
                         if cn == want:
                             test_ok = True
